@@ -675,7 +675,7 @@ def c10(ctx):
     scn_path = os.path.join(ctx.scratch, "scn.ndjson")
     write_ndjson(scn_path, scns)
     trace = os.path.join(ctx.scratch, "trace.ndjson")
-    run_vh(ctx, ["trees", "-scn", scn_path, "-out", trace, "-seed", ctx.seed, "-n", 400 if q else 4000], timeout=6 * 3600)
+    run_vh(ctx, ["trees", "-scn", scn_path, "-out", trace, "-seed", ctx.seed, "-n", 400 if q else 2000], timeout=6 * 3600)
     cls = validate_trace(ctx, "Trace_Trees", trace, {"Known": known, "AsBuilt": asbuilt, "Judge": '"C10"'}, shards=4 if q else 12)
     lines = {x["id"]: x for x in read_ndjson(trace)}
     tally = Tally(ctx)
@@ -737,7 +737,7 @@ def c18(ctx):
     scn_path = os.path.join(ctx.scratch, "scn.ndjson")
     write_ndjson(scn_path, scns)
     trace = os.path.join(ctx.scratch, "trace.ndjson")
-    run_vh(ctx, ["propagation", "-scn", scn_path, "-out", trace, "-seed", ctx.seed, "-n", 70 if q else 1500], timeout=6 * 3600)
+    run_vh(ctx, ["propagation", "-scn", scn_path, "-out", trace, "-seed", ctx.seed, "-n", 70 if q else 600], timeout=6 * 3600)
     cls = validate_trace(ctx, "Trace_Propagation", trace, {"Known": known, "AsBuilt": asbuilt}, shards=4 if q else 12)
     lines = {x["id"]: x for x in read_ndjson(trace)}
     tally = Tally(ctx)
@@ -806,7 +806,7 @@ def c15(ctx):
               "kind": "ahead", "special": True},
              {"t": "SCN", "C": [E(1, "ref", "main"), E(2, "ref", "main")], "L": [E(3, "ref", "main", t=1), E(4, "ref", "feat")],
               "R": [E(5, "ann", tg=[2], skip=True)], "kind": "replayed", "special": True}]
-    scns = fixed + special[:20 if q else 600] + rest[:40 if q else 1200]
+    scns = fixed + special[:20 if q else 250] + rest[:40 if q else 350]
     scn_path = os.path.join(ctx.scratch, "scn.ndjson")
     write_ndjson(scn_path, scns)
     trace = os.path.join(ctx.scratch, "trace.ndjson")
